@@ -7,7 +7,7 @@ TABLES = []
 LAKE_TARGETS = ["Moclo.Props.C14"]
 THEOREMS = ["Moclo.C14." + t for t in [
     "rc_rc", "rc_getElem", "rc_rotr", "feature_part_mirrored", "feature_part_flip_flip", "feature_flip",
-    "feature_flip_flip_perm", "record_rc"]]
+    "feature_flip_flip_perm", "feature_flip_flip", "reading_order_mirrored", "record_rc"]]
 # reductions under which a failing case stays a case of this property (see shrink.py)
 SHRINK = {"lists": ["feats"], "ints": ["k"]}
 RULE = ("random records with feature tables that include locations left past the end by earlier rotations and "
